@@ -12,6 +12,7 @@ import itertools
 from fractions import Fraction
 import common
 from common import enc, dec, err_kind
+from props import c16x
 
 ID = "C16"
 RULE = ("exhaustive small histories (all op words over {add(d,len), next} up to a length, all batch "
@@ -292,6 +293,8 @@ def _exact_ok(c):
     every sum / comparison the impl makes in binary floating point is exact."""
     if c["entry"] == "control":
         return True
+    if c["entry"] == "streamix_sys":
+        return c16x.valid(c)
     seq = c["entry"] == "streamix_seq"
     Tsum = Fraction(0)
     if c.get("tol") and (c["zk"] != "int" or c.get("defaults")):
@@ -336,6 +339,11 @@ def _generate(rng, tier, scale=1):
         else:
             cases.append(_random_history(rng, big=(i % 4 == 0)))
     cases += _control_cases(rng, tier, scale)
+    # histories with failing operations, several mixers, shared hubs, mixers as events (c16x)
+    if scale == 1:
+        cases += c16x.exhaustive(tier)
+    for i in range((2500 if tier == "quick" else 30000) * scale):
+        cases.append(c16x.random_case(rng, big=(i % 4 == 0)))
     return cases
 
 
@@ -424,12 +432,16 @@ def impl(c):
     try:
         if c["entry"] == "control":
             return _impl_control(c)
+        if c["entry"] == "streamix_sys":
+            return c16x.impl(c)
         return _impl_streamix(c)
     except Exception as e:
         return {"err": err_kind(e)}
 
 
 def request(c):
+    if c["entry"] == "streamix_sys":
+        return c16x.request(c)
     if c["entry"] == "control":
         return {"entry": "control", "init": c["init"], "ops": c["ops"]}
     ops = []
@@ -490,6 +502,8 @@ def _lean_reads(xs):
 
 def compare(c, io, drv):
     out = []
+    if c["entry"] == "streamix_sys":
+        return c16x.compare(c, io, drv)
     if "err" in io:
         return [("model", "impl raised " + io["err"]), ("spec", "impl raised " + io["err"])]
     if c["entry"] == "control":
@@ -514,6 +528,8 @@ def compare(c, io, drv):
 def nontrivial(c, io):
     if "err" in io:
         return False
+    if c["entry"] == "streamix_sys":
+        return c16x.nontrivial(c, io)
     if c["entry"] == "control":
         seen_set = False
         for op in c["ops"]:
@@ -531,6 +547,8 @@ def nontrivial(c, io):
 
 def tally(eng, c, io):
     eng.count("entry", c["entry"])
+    if c["entry"] == "streamix_sys":
+        return c16x.tally(eng, c, io)
     if "err" in io:
         eng.count("impl_error", io["err"])
         return
@@ -610,6 +628,10 @@ def neighbours(c):
 
 
 def _shrink(c):
+    if c["entry"] == "streamix_sys":
+        for x in c16x.shrink(c):
+            yield x
+        return
     ops = c["ops"]
     if c["entry"] == "control":
         for i in range(len(ops)):
@@ -652,6 +674,10 @@ def _shrink(c):
 
 
 def _neighbours(c):
+    if c["entry"] == "streamix_sys":
+        for x in c16x.neighbours(c):
+            yield x
+        return
     if c["entry"] == "control":
         yield dict(c, ops=c["ops"] + [{"op": "read"}])
         return
@@ -676,6 +702,8 @@ def _kind(o):
 
 
 def classify(c, io, drv):
+    if c["entry"] == "streamix_sys":
+        return c16x.classify(c, io, drv)
     if "err" in io:
         return c["entry"] + ":" + io["err"]
     if c["entry"] == "control":
